@@ -124,6 +124,7 @@ def normalise(spec):
     s["stage2"] = {k: (v or None) for k, v in s["stage2"].items()}
     s["images"] = {p: dict(t) for p, t in s["images"].items()}
     s.pop("main_variant")
+    s.pop("raw_checksums", None)
     return s
 
 
@@ -166,7 +167,10 @@ def build(spec, _pollute=True):
     if spec["media"]:
         ti.media.discnum, ti.media.totaldiscs = spec["media"]["discnum"], spec["media"]["totaldiscs"]
     for path, (ctype, value) in spec["checksums"].items():
-        ti.checksums.add(path, ctype, value)
+        if path in spec.get("raw_checksums", []):
+            ti.checksums.checksums[path] = [ctype, value]          # set directly in the public mapping, spelling kept
+        else:
+            ti.checksums.add(path, ctype, value)
     return ti
 
 
@@ -298,6 +302,9 @@ def edits(spec, seed=0, max_depth=3, with_float=False, with_main=False):
                 break
     for p in list(spec["checksums"])[:1]:
         out.append(["checksum-", p])
+    for name in ("./repodata/repomd.xml", "a//b/../c.img"):
+        if name not in spec["checksums"]:
+            out.append(["checksum-raw", name, "sha256", DIGESTS["sha256"]])
     if with_main:
         for uid in [None] + top_uids:
             if spec["main_variant"] != uid:
@@ -339,6 +346,9 @@ def apply_spec(spec, e):
         s["checksums"][e[1]] = [e[2], e[3]]
     elif k == "checksum-":
         del s["checksums"][e[1]]
+    elif k == "checksum-raw":
+        s["checksums"][e[1]] = [e[2], e[3]]
+        s.setdefault("raw_checksums", []).append(e[1])
     elif k == "main":
         s["main_variant"] = e[1]
     else:
@@ -382,3 +392,5 @@ def apply_obj(ti, e):
         ti.checksums.add(e[1], e[2], e[3])
     elif k == "checksum-":
         del ti.checksums.checksums[e[1]]
+    elif k == "checksum-raw":
+        ti.checksums.checksums[e[1]] = [e[2], e[3]]
